@@ -190,6 +190,12 @@ func init() {
 		}
 		return r.tt.Const(64, uint64(n))
 	}
+	harnessAPI["vAdvance"] = func(r *Run, fr *frame, args []Value) Value {
+		g := fr.g
+		r.envFire(fr, g)
+		r.block(fr, "advance", func() bool { return len(r.runnable(g)) == 0 })
+		return nil
+	}
 	harnessAPI["vTimersQuiet"] = func(r *Run, fr *frame, args []Value) Value {
 		r.timersQuiet = true
 		r.noteAssumption("one-shot timers (time.NewTimer / time.After: time-outs) never fire in this harness; tickers do")
